@@ -68,7 +68,7 @@ class GeckoSnapshot:
                 self._re_config_and_log,
             ),
             # Match "STATV\x15\x16'\x00\x00\x00\x00\x00\x00\x00\x00\x00\x00\x00\x00\x00\x00\x00\x00\x00\x00\x00\x00\x00\x00\x00\x00\x00\x00\x00\x00\x00\x00\x00\x00\x00\x00\x00\x00\x00\x00\x00</DATAS>"  # noqa: E501
-            (r"(STATV.*)</DATAS>", self._re_data_segment),
+            (r"<DATAS>(STATV.*)</DATAS>", self._re_data_segment),
         ]
 
     def _re_snapshot(self, groups):
